@@ -44,6 +44,13 @@ impl TargetS {
     pub fn verify_as_receiver(&self, other: &TargetS) -> (r: Result<(), ReceiverAttachError>) { unimplemented!() }
 }
 pub struct FlowS { pub initial_delivery_count: u32, pub delivery_count: u32, pub link_credit: u32 }
+// the read accessors of LinkFlowState (link/state.rs) on the lock-erased state (R4)
+impl FlowS {
+    pub fn as_ref(&self) -> (r: &FlowS) ensures *r == *self { self }
+    pub fn initial_delivery_count(&self) -> (r: u32) ensures r == self.initial_delivery_count { self.initial_delivery_count }
+    pub fn delivery_count(&self) -> (r: u32) ensures r == self.delivery_count { self.delivery_count }
+    pub fn link_credit(&self) -> (r: u32) ensures r == self.link_credit { self.link_credit }
+}
 pub struct ReceiverLink {
     pub local_state: LinkState, pub input_handle: Option<InputHandle>, pub snd_settle_mode: SenderSettleMode, pub rcv_settle_mode: ReceiverSettleMode,
     pub source: Option<SourceS>, pub target: Option<TargetS>, pub max_message_size: u64, pub flow_state: FlowS,
